@@ -228,6 +228,42 @@ func isFaulty(line string) bool {
 	return strings.Contains(line, "\x00") || strings.Contains(line, "zz") || strings.HasSuffix(line, " depth") || strings.Contains(line, "-")
 }
 
+var hogsExcluded int
+
+// resourceHog: inputs whose only effect is resource exhaustion are outside the property (a hash table of
+// gigabytes, deep perft): a Hash value that is not a small number (strconv.Atoi saturates on overflow, the
+// handler clamps to the option's maximum of 65000 MB), perft deeper than 3.
+func resourceHog(line string) bool {
+	f := strings.Fields(line)
+	for i := 0; i+1 < len(f); i++ {
+		if f[i] == "Hash" {
+			for j := i + 1; j < len(f); j++ {
+				if f[j] == "value" && j+1 < len(f) {
+					v := f[j+1]
+					digits := strings.TrimLeft(v, "+")
+					allDigits := len(digits) > 0
+					for _, c := range digits {
+						if c < '0' || c > '9' {
+							allDigits = false
+						}
+					}
+					if allDigits && (len(digits) > 2 || digits > "16" && len(digits) == 2) {
+						return true
+					}
+				}
+			}
+		}
+	}
+	if len(f) >= 2 && f[0] == "perft" {
+		for _, v := range f[1:] {
+			if len(v) > 1 || (len(v) == 1 && v[0] > '3' && v[0] <= '9') {
+				return true
+			}
+		}
+	}
+	return false
+}
+
 // genUciLines renders a C12-style session as text and injects faults.
 func genUciLines(t *rapid.T, maxLines int) uciLinesCase {
 	var c uciLinesCase
@@ -301,7 +337,8 @@ func genUciLines(t *rapid.T, maxLines int) uciLinesCase {
 			p := hx.GenStart(t, 8)
 			line = "position fen " + mutateFen(t, p.FEN())
 		}
-		if strings.HasPrefix(strings.TrimSpace(line), "quit") {
+		if strings.HasPrefix(strings.TrimSpace(line), "quit") || resourceHog(line) {
+			hogsExcluded++
 			continue
 		}
 		c.Lines = append(c.Lines, line)
@@ -313,6 +350,7 @@ func genUciLines(t *rapid.T, maxLines int) uciLinesCase {
 func runC16Uci(r *hx.Rec) {
 	r.Assume("UCI lines: resource-exhaustion inputs are excluded by construction (Hash > 16 MB, perft > 3, depth > 6, movetime > 300 ms, 'quit'); after every sequence the harness sends 'stop' and 'isready'")
 	hx.Sub(r, "uci-lines", r.N(250, 3000), func(t *rapid.T) uciLinesCase { return genUciLines(t, 14) }, propC16Uci)
+	r.Excluded("UCI lines whose only effect is resource exhaustion (Hash > 16 MB, perft > 3, quit)", hogsExcluded)
 	// one over-long line (longer than the default 64 kB scanner buffer)
 	hx.Enum(r, "uci-long-line", false, func(yield func(uciLinesCase) bool) {
 		yield(uciLinesCase{Lines: []string{"position startpos moves e2e4", "position startpos moves " + strings.Repeat("e2e4 ", 14000), "isready"}})
